@@ -16,6 +16,10 @@ transition / metastable, isotopes mapped to their element for rates only):
   hostile_interior  tables with hostile shapes along one axis (dip / spike / alternating / notch of 3-12 decades between
                neighbouring knots, values next to the smallest normal double): >= 24 points per knot interval of that
                axis, other arguments on and between knots, must be non-negative, not NaN, not raise (knots still judged)
+  range_matrix degenerate-but-legal tables (exactly independent of one axis, constant, constant along one axis over part of
+               its knots, separable) get, besides all value checks and the single-axis excursions, the rest of the
+               range-policy matrix: each edge knot of each axis (must evaluate), outside every PAIR of axes and outside
+               all axes at once (raise without / finite non-negative with permit_extrapolation)
   history      call-history independence: a random request sequence on ONE rate object (knots, interior, non-positive,
                out-of-range points repeated 3-4 times, right after in-range / the same / other out-of-range requests)
                gives, request by request, the bit-identical value or the same exception type as a freshly constructed
@@ -36,7 +40,9 @@ RULE = ("one case = one private repository written with repository.update_* + on
         "wavelength_element_fallback; random positive tables (log-random-walk, <= 12 decades, 2..12 knots per axis, "
         "knot spacing >= 0.1 decade), hostile-shape tables (dip / spike / alternating / notch of 3-12 decades between "
         "neighbouring knots along one axis, or values just above the smallest normal double; every accessor, every axis) "
-        "sampled densely between knots, or single-point axes; requested species element or isotope (with decoy tables "
+        "sampled densely between knots, degenerate tables (exactly independent of one axis / constant / constant along "
+        "one axis over part of its knots / rank-1; every accessor, every axis) with the full range-policy matrix, or "
+        "single-point axes; requested species element or isotope (with decoy tables "
         "stored under the isotope symbol / other charge / other transition / other metastable); scenarios present / "
         "file missing / key missing / wavelength missing; arguments at every knot, at random interior points, "
         "non-positive, and up to one decade outside each axis; plus, for both permit_extrapolation values, a 25-60 "
@@ -58,11 +64,11 @@ ASSUMPTIONS = ["tables are written through cherab.openadas.repository.update_* (
                "arguments are finite doubles (no NaN / inf)"]
 ASAN_MODULES = ['cherab.openadas.rates.atomic', 'cherab.openadas.rates.pec', 'cherab.openadas.rates.beam', 'cherab.openadas.rates.cx', 'cherab.openadas.rates.radiated_power']
 ASAN = dict(cases=400, workers=8, timecap=240)
-QUICK = dict(cases=700, workers=2, timecap=45)
+QUICK = dict(cases=600, workers=2, timecap=45)
 THOROUGH = dict(cases=24000, workers=16, timecap=600)
 REQUIRED = {"knot": 60000, "nonneg": 60000, "nonpositive": 8000, "range_raise": 6000, "range_finite": 6000,
-            "isotope": 600, "wavelength": 500, "missing_raise": 400, "missing_null": 1200, "single_point": 300,
-            "history": 8000, "hostile_interior": 20000}
+            "isotope": 600, "wavelength": 500, "missing_raise": 350, "missing_null": 1200, "single_point": 280,
+            "history": 8000, "hostile_interior": 20000, "range_matrix": 2000}
 
 HC_NM = 6.62607015e-34 * 299792458.0 * 1e9      # J.nm   (exact SI 2019 values)
 KNOT_RTOL = 1e-9
@@ -260,6 +266,65 @@ def _gen_hostile_table(rng, acc, hostile, scale):
     raise ValueError(acc)
 
 
+DEGENERATE_KINDS = ["indep", "constant", "partial", "rank1"]
+
+
+def _slice_copy(R, i, dst, src):
+    idx_d = [slice(None)] * R.ndim
+    idx_s = [slice(None)] * R.ndim
+    idx_d[i], idx_s[i] = dst, src
+    R[tuple(idx_d)] = R[tuple(idx_s)]
+
+
+def _degenerate_array(rng, R, i, kind):
+    """exactly (bit-for-bit) degenerate versions of a positive N-d table: independent of axis i, constant, constant along
+    axis i over part of its knots, separable (rank 1)"""
+    R = np.array(R, dtype=float)
+    n = R.shape[i]
+    if kind == "constant":
+        R[...] = R.flat[0]
+    elif kind == "indep" or (kind == "partial" and n < 3):
+        k0 = int(rng.integers(n))
+        for k in range(n):
+            _slice_copy(R, i, k, k0)
+    elif kind == "partial":
+        m = int(rng.integers(1, n - 1))
+        ks = range(0, m) if rng.random() < 0.5 else range(m + 1, n)
+        for k in ks:
+            _slice_copy(R, i, k, m)
+    elif kind == "rank1":
+        L = np.log10(R)
+        out = np.zeros_like(L)
+        for a in range(R.ndim):
+            idx = [0] * R.ndim
+            idx[a] = slice(None)
+            sh = [1] * R.ndim
+            sh[a] = R.shape[a]
+            out = out + (L[tuple(idx)] - L.flat[0]).reshape(sh)
+        R = 10 ** (out + L.flat[0])
+    return R
+
+
+def _degenerate_table(rng, acc, t, dg):
+    """degenerate-but-legal version of a generated table (dg = {kind, axis})"""
+    kind, ax = dg["kind"], dg["axis"]
+    axes = AXES[acc]
+    t = dict(t)
+    if acc in FAM_2D or acc == "thermal_cx_pec":
+        t["rate"] = _degenerate_array(rng, t["rate"], axes.index(ax), kind).tolist()
+    elif acc in FAM_BEAM:
+        if kind in ("constant", "rank1") or ax in ("e", "n"):
+            t["sen"] = _degenerate_array(rng, t["sen"], 0 if ax == "e" else 1 if ax == "n" else int(rng.integers(2)), kind).tolist()
+        if kind == "constant" or (ax == "t" and kind != "rank1"):
+            t["st"] = [float(v) for v in _degenerate_array(rng, t["st"], 0, "constant" if kind == "rank1" else kind)]
+    elif acc == "beam_cx_pec":
+        qn = {"eb": "qeb", "ti": "qti", "ni": "qni", "z": "qz", "b": "qb"}
+        which = list(qn) if kind == "constant" else [ax] + ([axes[(axes.index(ax) + 1) % 5]] if kind == "rank1" else [])
+        for a in which:
+            t[qn[a]] = [float(v) for v in _degenerate_array(rng, t[qn[a]], 0, "partial" if kind == "partial" else "constant")]
+    return t
+
+
 def _gen_table(rng, acc, single, tier, scale=1.0, hostile=None):
     if hostile is not None:
         return _gen_hostile_table(rng, acc, hostile, scale)
@@ -389,13 +454,13 @@ def _element_level(acc, key):
     return k
 
 
-def make_case(rng, tier, accessor=None, scenario=None, iso_mode=None, single=None, hostile=None):
+def make_case(rng, tier, accessor=None, scenario=None, iso_mode=None, single=None, hostile=None, degenerate=None):
     acc = accessor or ACCESSORS[int(rng.integers(len(ACCESSORS)))]
     if scenario is None:
         r = rng.random()
-        scenario = ("present" if r < 0.40 else "hostile" if r < 0.54 else "single" if r < 0.67 else
+        scenario = ("present" if r < 0.30 else "degenerate" if r < 0.44 else "hostile" if r < 0.56 else "single" if r < 0.68 else
                     "missing" if r < 0.89 else "nowavelength")
-    if acc == "wavelength" and scenario in ("single", "nowavelength", "hostile"):
+    if acc == "wavelength" and scenario in ("single", "nowavelength", "hostile", "degenerate"):
         scenario = "present" if rng.random() < 0.6 else "missing"
     if scenario == "nowavelength" and acc not in PEC:
         scenario = "present"
@@ -453,12 +518,20 @@ def make_case(rng, tier, accessor=None, scenario=None, iso_mode=None, single=Non
                              dict(mode="between", at=[float(v) for v in rng.uniform(0.05, 0.95, size=len(axes))])]
         case["hostile"] = hostile
 
-    def new_tables(scale, hz=None):
-        if metas is None:
-            return _gen_table(rng, acc, single, tier, scale, hz)
-        return {str(m): _gen_table(rng, acc, single, tier, scale, hz) for m in metas}
+    if scenario == "degenerate":
+        if degenerate is None:
+            degenerate = dict(kind=DEGENERATE_KINDS[int(rng.integers(len(DEGENERATE_KINDS)))], axis=axes[int(rng.integers(len(axes)))])
+        case["degenerate"] = dict(degenerate)
 
-    if scenario in ("present", "single", "nowavelength", "hostile"):
+    def new_tables(scale, hz=None, dg=None):
+        def one():
+            t = _gen_table(rng, acc, single, tier, scale, hz)
+            return _degenerate_table(rng, acc, t, dg) if dg else t
+        if metas is None:
+            return one()
+        return {str(m): one() for m in metas}
+
+    if scenario in ("present", "single", "nowavelength", "hostile", "degenerate"):
         # decoys first (so a decoy that lands on the same file never overwrites the real table)
         decoys = []
         for how in ("isotope-only", "charge", "transition", "metastable", "species"):
@@ -466,7 +539,7 @@ def make_case(rng, tier, accessor=None, scenario=None, iso_mode=None, single=Non
                 k2 = _perturb(rng, acc, key if how == "isotope-only" else ek, how)
                 if k2 is not None:
                     decoys.append(dict(key=k2, table=new_tables(float(rng.uniform(2.5, 40))), role="decoy:" + how))
-        case["stores"] = decoys + [dict(key=ek, table=new_tables(1.0, case.get("hostile")), role="main")]
+        case["stores"] = decoys + [dict(key=ek, table=new_tables(1.0, case.get("hostile"), case.get("degenerate")), role="main")]
     else:
         how = ["empty", "charge", "transition", "metastable", "species", "isotope-only"][int(rng.integers(6))]
         k2 = None if how == "empty" else _perturb(rng, acc, key if how == "isotope-only" else ek, how)
@@ -531,6 +604,31 @@ def _eval_points(rng, case, table):
     case["cx_anchor"] = [float(v) for v in rng.uniform(0, 1, size=d)]
     case["cx_combos"] = rng.uniform(0, 1, size=(12, d)).tolist()
     case["history"] = _gen_history(rng, d)
+    if case.get("degenerate"):
+        case["range_matrix"] = _gen_range_matrix(rng, d)
+
+
+def _gen_range_matrix(rng, d):
+    """full range-policy matrix: on each edge knot of each axis (others inside), outside two axes at once (every pair of
+    axes, every combination of sides) and outside all axes; the single-axis excursions are the 'outside' points"""
+    def at():
+        return [float(v) for v in rng.uniform(0.05, 0.95, size=d)]
+
+    def fac():
+        return float([1.0 + 1e-6, 1.01, 2.0, 10.0, 10 ** rng.uniform(1e-3, 1.0)][int(rng.integers(5))])
+    pts = []
+    for i in range(d):
+        for end in (-1, 1):
+            pts.append(dict(kind="edge", sides={str(i): end}, at=at(), others=["between", "knots"][int(rng.integers(2))]))
+    for i in range(d):
+        for j in range(i + 1, d):
+            for si in (-1, 1):
+                for sj in (-1, 1):
+                    pts.append(dict(kind="outside", sides={str(i): si, str(j): sj}, factors={str(i): fac(), str(j): fac()}, at=at()))
+    for _ in range(2):
+        pts.append(dict(kind="outside", sides={str(i): int(rng.choice([-1, 1])) for i in range(d)},
+                        factors={str(i): fac() for i in range(d)}, at=at()))
+    return pts
 
 
 def _gen_history(rng, d):
@@ -607,6 +705,18 @@ def fixed_cases(tier):
             for pat in pats:
                 out.append(make_case(rng, tier, acc, "hostile", ["none", "one"][k % 2], hostile=dict(axis=ax, pattern=pat)))
         out.append(make_case(rng, tier, acc, "hostile", "none", hostile=dict(axis=AXES[acc][k % len(AXES[acc])], pattern="tiny")))
+    rng = np.random.default_rng(30303)
+    k = 0
+    for acc in ACCESSORS:
+        if acc == "wavelength":
+            continue
+        for ax in AXES[acc]:
+            out.append(make_case(rng, tier, acc, "degenerate", ["none", "one"][k % 2], degenerate=dict(kind="indep", axis=ax)))
+            k += 1
+        for kind in ("constant", "partial", "partial", "rank1"):
+            out.append(make_case(rng, tier, acc, "degenerate", ["none", "one"][k % 2],
+                                 degenerate=dict(kind=kind, axis=AXES[acc][k % len(AXES[acc])])))
+            k += 1
     from vf.core import jsonable
     return [jsonable(c) for c in out]
 
@@ -822,6 +932,8 @@ def run_case(case, ctx):
     ctx.cls("species:" + ("element" if n_iso == 0 else "isotope" if n_iso == len(sp_fields) else "mixed"))
     if case.get("single_axes"):
         ctx.cls("single-point-axis:%d-of-%d" % (len(case["single_axes"]), len(AXES[acc])))
+    if case.get("degenerate"):
+        ctx.cls("degenerate:%s" % case["degenerate"]["kind"])
     if case.get("hostile"):
         ctx.cls("hostile:%s:%s" % (case["hostile"]["pattern"], "linear-axis" if case["hostile"]["axis"] in LINEAR_AXES else "log-axis"))
 
@@ -1168,9 +1280,57 @@ def _judge(case, ctx, adas, acc, req, entry, wl_model, pe, null, fb):
         for rate, t in pairs:
             _judge_dense(case, ctx, acc, rate, t, flags)
 
+    # ---------------- degenerate tables: the rest of the range-policy matrix (edge knots, outside several axes at once)
+    if case.get("range_matrix") and selected:
+        for rate, t in pairs:
+            _judge_range_matrix(case, ctx, acc, rate, t, pe, flags)
+
     # ---------------- call history: outcomes must not depend on what was evaluated before
     if selected:
         _judge_history(case, ctx, adas, acc, req, table, flags)
+
+
+def _judge_range_matrix(case, ctx, acc, rate, t, pe, flags):
+    axes = AXES[acc]
+    for rp in case["range_matrix"]:
+        knots = acc == "beam_cx_pec" or rp.get("others") == "knots"
+        if knots:     # (beam_cx_pec: see the short-circuit note at the single-axis excursions)
+            p = [float(t[a][min(int(u * len(t[a])), len(t[a]) - 1)]) for a, u in zip(axes, rp["at"])]
+        else:
+            p = _frac_point(acc, t, rp["at"])
+        names = []
+        for si, side in rp["sides"].items():
+            i = int(si)
+            x = t[axes[i]]
+            names.append(ARGNAMES[axes[i]])
+            if rp["kind"] == "edge":
+                p[i] = float(max(x) if side > 0 else min(x))
+            else:
+                f = float(rp["factors"][si])
+                p[i] = float(max(x) * f if side > 0 else min(x) / f)
+        what = "+".join(names)
+        oo = _call(rate, *p)
+        ctx.mon("range_matrix")
+        detail = dict(point=p, flags=flags, degenerate=case.get("degenerate"), sides=rp["sides"],
+                      ranges={a: [min(t[a]), max(t[a])] for a in axes})
+        if rp["kind"] == "edge":
+            if oo.exc is not None:
+                ctx.viol("range:%s:raises-on-edge-knot:%s" % (acc, what), "%s raised %s with %s exactly on the %s knot of its axis (inside "
+                         "the tabulated range): %s" % (acc, type(oo.exc).__name__, what, "last" if list(rp["sides"].values())[0] > 0 else "first",
+                                                       str(oo.exc)[:160]), **detail)
+            elif not (math.isfinite(oo.value) and oo.value >= 0):
+                ctx.viol("negative-or-non-finite:%s:edge-knot" % acc, "%s returned %r on an edge knot of %s" % (acc, oo.value, what), **detail)
+        elif not pe:
+            if oo.exc is None:
+                ctx.viol("range:%s:no-raise:%s" % (acc, what), "%s returned %r with %s outside the tabulated range and "
+                         "permit_extrapolation=False" % (acc, oo.value, what), **detail)
+        else:
+            if oo.exc is not None:
+                ctx.viol("range:%s:extrapolation-raises:%s" % (acc, what), "%s raised %s with %s within one decade outside the range and "
+                         "permit_extrapolation=True: %s" % (acc, type(oo.exc).__name__, what, str(oo.exc)[:160]), **detail)
+            elif not (math.isfinite(oo.value) and oo.value >= 0):
+                ctx.viol("range:%s:extrapolation-non-finite:%s" % (acc, what), "%s returned %r with %s within one decade outside the "
+                         "range and permit_extrapolation=True" % (acc, oo.value, what), **detail)
 
 
 def _judge_dense(case, ctx, acc, rate, t, flags):
